@@ -174,7 +174,11 @@ impl Diagnostics {
             // If this diagnostic is a lint, update its diagnostic level. Errors always have a level of `Error`.
             if let DiagnosticKind::Lint(lint) = &diagnostic.kind {
                 // Check if the lint is allowed by an `--allow` flag passed on the command line.
-                if is_lint_allowed_by(options.allowed_lints.iter(), lint) {
+                // The command line accepts lint names in any letter case, so we have to compare them that way too.
+                let is_allowed_on_command_line = options.allowed_lints.iter().any(|identifier| {
+                    identifier.eq_ignore_ascii_case("All") || identifier.eq_ignore_ascii_case(lint.code())
+                });
+                if is_allowed_on_command_line {
                     diagnostic.level = DiagnosticLevel::Allowed;
                 }
 
